@@ -26,6 +26,7 @@ import (
 	"io"
 	"io/fs"
 	"math/rand"
+	"net"
 	"os"
 	"os/exec"
 	"path/filepath"
@@ -69,15 +70,15 @@ var (
 	registry = map[uintptr]string{}
 )
 
-func wall1() (int64, int32)   { return 1, 1 }
-func wall2() (int64, int32)   { return 2, 2 }
-func nano1() int64            { return 1 }
-func nano2() int64            { return 2 }
-func sleep1(int64)            {}
-func sleep2(int64)            { runtime.Gosched() }
-func yield1()                 {}
-func yield2()                 { runtime.Gosched() }
-func ptrOf(x any) uintptr     { return reflect.ValueOf(x).Pointer() }
+func wall1() (int64, int32)    { return 1, 1 }
+func wall2() (int64, int32)    { return 2, 2 }
+func nano1() int64             { return 1 }
+func nano2() int64             { return 2 }
+func sleep1(int64)             {}
+func sleep2(int64)             { runtime.Gosched() }
+func yield1()                  {}
+func yield2()                  { runtime.Gosched() }
+func ptrOf(x any) uintptr      { return reflect.ValueOf(x).Pointer() }
 func register(x any, n string) { registry[ptrOf(x)] = n }
 
 func setupPools(work string) {
@@ -131,6 +132,7 @@ type Step struct {
 	Method string    `json:"method,omitempty"`
 	Args   []ArgSpec `json:"args,omitempty"`
 	Sock   bool      `json:"sock,omitempty"` // inst: context carries a sock.Config
+	Busy   bool      `json:"busy,omitempty"` // inst with Sock: the listener's port is occupied by the harness, so the instantiation FAILS while the system context is built
 }
 
 type Tree struct {
@@ -283,7 +285,7 @@ type run struct {
 }
 
 type verdict struct {
-	kind, sig, what string
+	kind, sig, what  string
 	expected, actual any
 }
 
@@ -785,12 +787,21 @@ func (r *run) doStep(st Step) *verdict {
 	}
 	p := r.nodes[st.Parent]
 	before := len(r.nodes)
+	var pending *verdict
 	switch st.Op {
 	case "inst":
 		if p.kind != "moduleConfig" {
 			return nil
 		}
-		r.instantiate(p, st.Sock, false)
+		if st.Sock && st.Busy {
+			if res := r.instantiateBusy(p); !strings.HasPrefix(res, "error:") {
+				rep.Count("inst-busy:did-not-fail")
+			} else {
+				rep.Count("inst-busy:failed-as-intended")
+			}
+		} else {
+			r.instantiate(p, st.Sock, false)
+		}
 		if r.useOrc {
 			sc := "nil"
 			if st.Sock {
@@ -799,9 +810,11 @@ func (r *run) doStep(st Step) *verdict {
 			ans := orc.Askf("c19 call %d InstantiateModule sockConfig=s:%s ctxHasSockConfig=s:%v", p.mid, sc, st.Sock)
 			var mid int
 			if _, err := fmt.Sscan(ans, &mid); err != nil {
-				return &verdict{kind: "correspondence", sig: "C19:model-refuses-InstantiateModule", what: "model answered " + ans}
-			}
-			if mid != p.mid {
+				// the regenerated model no longer understands InstantiateModule: the real configurations are still
+				// checked against their own earlier snapshots (a concrete failing history has priority over this verdict)
+				pending = &verdict{kind: "correspondence", sig: "C19:model-refuses-InstantiateModule", what: "model answered " + ans}
+				r.useOrc = false
+			} else if mid != p.mid {
 				// the model's private clone inside InstantiateModule: not a node of the real tree
 				hidden[mid] = ""
 			}
@@ -869,6 +882,9 @@ func (r *run) doStep(st Step) *verdict {
 	}
 	if v := r.monitor(before, st); v != nil {
 		return v
+	}
+	if pending != nil {
+		return pending
 	}
 	if r.useOrc {
 		want := orc.Ask("c19 dump")
@@ -1021,6 +1037,28 @@ func (r *run) close() {
 		r.rt.Close(r.ctx)
 		r.rt = nil
 	}
+}
+
+// instantiateBusy: InstantiateModule under a context whose sock.Config asks for a TCP listener on a port the harness
+// itself holds: building the system context fails (bind: address already in use) AFTER InstantiateModule has looked at
+// the sock config.  A failed instantiation must leave the caller's configuration as it was, like a successful one.
+func (r *run) instantiateBusy(n *node) string {
+	if !r.ensureRuntime() {
+		return "error:guest runtime unavailable"
+	}
+	l, err := net.Listen("tcp", "127.0.0.1:0")
+	if err != nil {
+		return "noerror: cannot occupy a port: " + err.Error()
+	}
+	defer l.Close()
+	port := l.Addr().(*net.TCPAddr).Port
+	ctx := expsock.WithConfig(r.ctx, expsock.NewConfig().WithTCPListener("127.0.0.1", port))
+	mod, err := r.rt.InstantiateModule(ctx, r.guestCM, n.cfg.(wazero.ModuleConfig))
+	if err != nil {
+		return "error:" + err.Error()
+	}
+	mod.Close(ctx)
+	return "instantiated"
 }
 
 // instantiate returns the guest view "args=[…] env=[…] pre=[…]" or "error:…".
@@ -1191,7 +1229,8 @@ func genStep(rnd *rand.Rand, r *run, instProb int, refw map[string]bool) (Step, 
 	}
 	p := r.nodes[pi]
 	if p.kind == "moduleConfig" && rnd.Intn(100) < instProb {
-		return Step{Op: "inst", Parent: pi, Sock: rnd.Intn(2) == 0}, true
+		sock := rnd.Intn(2) == 0
+		return Step{Op: "inst", Parent: pi, Sock: sock, Busy: sock && rnd.Intn(3) == 0}, true
 	}
 	ms := withMethods(p.cfg)
 	if len(ms) == 0 {
@@ -1352,7 +1391,7 @@ func describe(t Tree) []string {
 			res = fmt.Sprintf("node%d = ", before)
 		}
 		if st.Op == "inst" {
-			out = append(out, fmt.Sprintf("InstantiateModule(ctx[sock=%v], guest, node%d)", st.Sock, st.Parent))
+			out = append(out, fmt.Sprintf("InstantiateModule(ctx[sock=%v port-in-use=%v], guest, node%d)", st.Sock, st.Busy, st.Parent))
 		} else {
 			out = append(out, fmt.Sprintf("%snode%d.%s(%s)", res, st.Parent, st.Method, argText(st.Args)))
 		}
@@ -1385,6 +1424,8 @@ func witnesses() []Tree {
 		{Steps: []Step{env(2, "A", "1"), env(5, "B", "2"), env(6, "C", "3"), env(7, "D", "4"), env(7, "E", "5")}},
 		// instantiate with a sock config in the context, then without
 		{Steps: []Step{env(2, "A", "1"), {Op: "inst", Parent: 5, Sock: true}, {Op: "inst", Parent: 5, Sock: false}}},
+		// an instantiation with a sock config that FAILS (port in use), then derive from / reuse the same configuration
+		{Steps: []Step{env(2, "A", "1"), {Op: "inst", Parent: 5, Sock: true, Busy: true}, env(5, "B", "2"), {Op: "inst", Parent: 5, Sock: false}, {Op: "inst", Parent: 6, Sock: false}}},
 	}
 }
 
@@ -1782,7 +1823,7 @@ func explore(nsteps int, guests bool, sample bool, choose func(r *run) (Step, bo
 		rep.Case(key)
 		what := st.Method
 		if st.Op == "inst" {
-			what = fmt.Sprintf("InstantiateModule[sock=%v]", st.Sock)
+			what = fmt.Sprintf("InstantiateModule[sock=%v port-in-use=%v]", st.Sock, st.Busy)
 		}
 		rep.Count("step:" + p.kind + "." + what)
 		covered[p.kind+"."+st.Method] = true
@@ -1808,7 +1849,7 @@ func explore(nsteps int, guests bool, sample bool, choose func(r *run) (Step, bo
 
 func stepClass(p *node, st Step) string {
 	if st.Op == "inst" {
-		return fmt.Sprintf("inst/%v", st.Sock)
+		return fmt.Sprintf("inst/%v/%v", st.Sock, st.Busy)
 	}
 	sv := structOf(p.cfg)
 	var caps []string
@@ -1832,7 +1873,9 @@ func stepClass(p *node, st Step) string {
 }
 
 // the race child has no oracle: parameter names travel through a file in the work directory
-func sigFile() string { return filepath.Join(filepath.Dir(strings.TrimRight(*hx.Work, "/")), "c19sigs.json") }
+func sigFile() string {
+	return filepath.Join(filepath.Dir(strings.TrimRight(*hx.Work, "/")), "c19sigs.json")
+}
 
 func saveSigsToEnv() {
 	type js struct {
